@@ -61,6 +61,8 @@ type FnCtx struct {
 	quiet         int // >0: suppress obligations (spec-level calls)
 	curPos        token.Pos
 	writtenNames  map[string]bool // all heap names written in this function (for frame check)
+	conformImpl   *Contract // conformance job: the implementation's contract (fc.con is the interface method's contract)
+	prefixOverride string
 	curBinds      []Val // captured values of the closure being called by contract
 	freshT        map[string]types.Type // struct objects allocated by this function (incl. inlined callees)
 	volatileNames map[string]bool // heap names havocked at a monitor acquisition (other threads' writes): exempt from the frame check
